@@ -229,7 +229,7 @@ def _rand_value(rr, depth=0):
 def _clean(v):
     # nested lists may not contain sets/arrays for == on lists to be meaningful
     if isinstance(v, list):
-        return [x if isinstance(x, (int, float, str, bool, list)) or x is None else 0 for x in v]
+        return [_clean(x) if isinstance(x, list) else (x if isinstance(x, (int, float, str, bool)) or x is None else 0) for x in v]
     return v
 
 
